@@ -259,7 +259,11 @@ def feasible_placements(verts, chips, pinned):
 
 def build_problem(graph, keyset):
     from rig.netlist import Net
-    nets = [Net(s, list(t)) for s, t in graph["nets"]]
+    # weights only matter to placers that optimise wire length; delivery
+    # must not depend on them (zero and fractional weights included)
+    wts = (1.0, 0.0, 2.5, 0.5)
+    nets = [Net(s, list(t), wts[(i + len(t)) % 4])
+            for i, (s, t) in enumerate(graph["nets"])]
     if keyset == "many":
         return nets, {n: (graph["keys"][i], 0xffffffff)
                       for i, n in enumerate(nets)}
